@@ -312,7 +312,20 @@ fn run_body(ctx: Arc<Ctx>, body: usize) -> usize {
         body,
         ctx: ctx.clone(),
     };
-    log("B", body.to_string(), "");
+    // first-event snapshot of the world as this task sees it (compared across iterations by C14)
+    let snap = {
+        let t = thread::current();
+        format!(
+            "clock={:?} sched_len={} switches={} name={:?} label={:?}",
+            shuttle::current::clock(),
+            shuttle_engine::runtime::execution::CurrentSchedule::len(),
+            shuttle::current::context_switches(),
+            t.name(),
+            shuttle::current::get_name_for_task(shuttle::current::me()),
+        )
+    };
+    log("B", body.to_string(), snap);
+    let _stack_val = StackVal(body);
     let ops = &prog.bodies[body];
     for (i, op) in ops.iter().enumerate() {
         match op {
@@ -467,6 +480,16 @@ fn exec_catch(l: &mut Local, i: usize, inner: &[Op]) {
     log("E", format!("{}.end", i), "caught");
 }
 
+/// a value living on the task's stack for the whole body: dropped at the end of the body, or when
+/// the stack of an abandoned task is unwound at the end of the execution
+pub struct StackVal(usize);
+
+impl Drop for StackVal {
+    fn drop(&mut self) {
+        log("SD", self.0.to_string(), "");
+    }
+}
+
 pub struct TlsVal {
     key: usize,
 }
@@ -501,10 +524,22 @@ impl Drop for TlsVal {
     }
 }
 
+/// Thread-local whose destructor synchronises unconditionally. Only the pinned witness of known
+/// finding F17 uses it (key 3).
+pub struct TlsSyncVal;
+
+impl Drop for TlsSyncVal {
+    fn drop(&mut self) {
+        log("D", "3", "");
+        thread::yield_now();
+    }
+}
+
 shuttle::thread_local! {
     static TLS0: TlsVal = TlsVal::new(0);
     static TLS1: TlsVal = TlsVal::new(1);
     static TLS2: TlsVal = TlsVal::new(2);
+    static TLS3: TlsSyncVal = TlsSyncVal;
 }
 
 pub struct LazyVal {
@@ -858,10 +893,11 @@ fn exec_op(l: &mut Local, label: &str, uv: u64, op: &Op) {
             "".into()
         }
         Op::TlsWith(k) => {
-            let r = match k % 3 {
+            let r = match k % 4 {
                 0 => TLS0.try_with(|v| v.key),
                 1 => TLS1.try_with(|v| v.key),
-                _ => TLS2.try_with(|v| v.key),
+                2 => TLS2.try_with(|v| v.key),
+                _ => TLS3.try_with(|_| 3),
             };
             match r {
                 Ok(_) => "ok".into(),
